@@ -544,6 +544,14 @@ def do_check(pid, tier, seed):
             except Exception:
                 pass
             break
+    # keep only a sample of the (large) behaviour files
+    for mr in model_runs:
+        bp = os.path.join(wd, "behaviours-%s.ndjson" % mr["cfg"])
+        if os.path.exists(bp) and os.path.getsize(bp) > (8 << 20):
+            with open(bp) as f:
+                head = [next(f, "") for _ in range(500)]
+            with open(bp, "w") as f:
+                f.writelines(head)
     episodes = sum(g.get("episodes", 0) for g in gen_stats)
     distinct = sum(g.get("distinct_nontrivial", 0) for g in gen_stats)
     ev = {
